@@ -237,3 +237,9 @@ pub use utils::orphan_block_pool::{EXPIRED_EPOCH as VERIF_ORPHAN_EXPIRED_EPOCH, 
 /// verification hook: on-demand trigger for the orphan-expiry timer (see the module documentation)
 #[cfg(feature = "verif-hooks")]
 mod verif_expire;
+
+/// verification hook: read-only access to the private `find_fork` (see the module documentation)
+#[cfg(feature = "verif-hooks")]
+mod verif_find_fork;
+#[cfg(feature = "verif-hooks")]
+pub use verif_find_fork::{VerifForkChanges, verif_find_fork};
